@@ -19,5 +19,6 @@ PY
 VERIF_REPO=$WT VERIF_OUT=/tmp/mutout-$PROP-$NAME ${TIER_ENV:-} /verif/check $PROP --tier ${TIER:-quick} 2>&1 | grep -E "VIOLATION|KNOWN|INCONCLUSIVE|BUILD-FAILED|tier=" | head -5
 rc=${PIPESTATUS[0]}
 git -C /repo worktree remove --force $WT
-rm -rf /tmp/mutout-$PROP-$NAME /verif/build/alt-*
+ALT=alt-$(python3 -c "import hashlib,sys;print(hashlib.sha1(sys.argv[1].encode()).hexdigest()[:10])" $WT)
+rm -rf /tmp/mutout-$PROP-$NAME /verif/build/$ALT
 echo "mutant $PROP/$NAME rc=$rc"
